@@ -1,6 +1,7 @@
 package main
 
 import (
+	"math/rand"
 	"encoding/hex"
 	"fmt"
 	"math/big"
@@ -60,7 +61,21 @@ func swKeyN(key string) int {
 			return 11 + i
 		}
 	}
+	// a key with white space around it is another string: no preimage of any hash used here
+	for i, k := range swKeys {
+		if strings.TrimSpace(key) == k {
+			return 41 + i
+		}
+	}
 	return 98
+}
+
+// padKey surrounds a key with white space now and then (what a careless client sends): it must count as a wrong key
+func padKey(rng *rand.Rand, key string) string {
+	if rng.Intn(7) != 0 {
+		return key
+	}
+	return []string{key + " ", key + "\n", " " + key, "\t" + key + "\r\n"}[rng.Intn(4)]
 }
 
 func (cw *ccWorld) chNum(s string) int {
@@ -199,6 +214,9 @@ func (cw *ccWorld) swFund() {
 
 var swIDs = []string{"a1", "a2", "a3"}
 
+// record keys are case-sensitive: "B2" and "b2" are two swaps (only a task id can be upper-case)
+var swIDsCase = []string{"a1", "b2", "B2"}
+
 type swBeginArgs struct {
 	u       int
 	id      string
@@ -274,16 +292,52 @@ func c08One(c *Ctx) error {
 	for k := 12 + rng.Intn(14); k > 0; k-- {
 		var term, msg string
 		ev, crt := "None", "None"
-		id := swIDs[rng.Intn(len(swIDs))]
+		id := swIDsCase[rng.Intn(len(swIDsCase))]
+		lid := strings.ToLower(id) // the robot's ids are lower-case hex
 		key := swKeys[rng.Intn(3)]
 		if rec := cw.swapRec(ch, id); rec != nil && rng.Intn(3) > 0 {
 			if n := swHashN(rec.GetHash()); n >= 11 && n < 11+len(swKeys) {
 				key = swKeys[n-11] // mostly the right key
 			}
 		}
+		key = padKey(rng, key)
 		switch r := rng.Intn(100); {
 		case r < 30:
 			b := cw.randBegin(c, ch)
+			b.id = id
+			if b.id != lid {
+				b.viaTask = true // a peer's transaction ids are lower-case hex; only a task id can be anything
+			}
+			if rng.Intn(4) == 0 {
+				// a begin and the cancel of the same id in ONE executeTasks request: the record the first task creates must
+				// be gone after the second. The state between them is taken from a run of the list cut after the first
+				// task, on a copy of the ledger; the errors come from the full list.
+				cw.nonce++
+				u := cw.users[b.u]
+				r1 := cw.w.SignedArgs(ch, "swapBegin", u, strconv.FormatUint(cw.nonce, 10), b.tok, b.to, strconv.FormatInt(b.amt, 10), hex.EncodeToString(swHash(b.key)))
+				cw.nonce++
+				canceller := cw.users[rng.Intn(2)]
+				r2 := cw.w.SignedArgs(ch, "swapCancel", canceller, strconv.FormatUint(cw.nonce, 10), b.id)
+				tasks := []*fpb.Task{{Id: b.id, Method: "swapBegin", Args: r1}, {Id: cw.w.Peer.NextTxID(), Method: "swapCancel", Args: r2}}
+				chn := cw.w.Peer.Channels[ch]
+				snap := stateSnapshot(chn)
+				cw.w.ExecTasks(ch, cw.w.Robot.Creator, tasks[:1])
+				mid := cw.swObs(ch)
+				chn.State = map[string][]byte{}
+				for k, v := range snap {
+					chn.State[k] = []byte(v)
+				}
+				out := cw.w.ExecTasks(ch, cw.w.Robot.Creator, tasks)
+				m1, m2 := "TASKS FAILED: "+out.Res.Message, "TASKS FAILED: "+out.Res.Message
+				if out.Resp != nil && len(out.Resp.GetTxResponses()) == 2 {
+					m1, m2 = out.Resp.GetTxResponses()[0].GetError().GetError(), out.Resp.GetTxResponses()[1].GetError().GetError()
+				}
+				ops = append(ops, "SBegin "+cw.beginTerm(ch, b))
+				steps = append(steps, fmt.Sprintf("(%s, None, None, %s)", swErr(m1), mid))
+				c.Count("one_begin_cancel_pair_" + strings.SplitN(strings.TrimPrefix(swErr(m1), "Some "), " ", 2)[0] + "_" + strings.SplitN(strings.TrimPrefix(swErr(m2), "Some "), " ", 2)[0])
+				term, msg = fmt.Sprintf("SCancel %d", cw.idN(b.id)), m2
+				break
+			}
 			var created []*fpb.Swap
 			msg, created = cw.swBegin(ch, cw.users[b.u], b.id, b.tok, b.to, b.amt, b.key, b.viaTask)
 			if !b.viaTask {
@@ -296,15 +350,52 @@ func c08One(c *Ctx) error {
 			tok := []string{other, other, own, own, "XX", "TT_G1"}[rng.Intn(6)]
 			u := cw.users[rng.Intn(2)]
 			s := &fpb.Swap{Creator: u.Addr, Owner: u.Addr, Token: tok, Amount: big.NewInt(int64(rng.Intn(300))).Bytes(), From: other, To: own, Hash: swHash(swKeys[rng.Intn(3)]), Timeout: 1}
-			s.Id, _ = hex.DecodeString(id)
+			s.Id, _ = hex.DecodeString(lid)
 			if rng.Intn(10) == 0 {
 				s.Amount = big.NewInt(5000).Bytes()
 			}
-			term = fmt.Sprintf("SAnswer %d (%s)", cw.idN(id), cw.swapTerm(s))
+			term = fmt.Sprintf("SAnswer %d (%s)", cw.idN(lid), cw.swapTerm(s))
+			if rng.Intn(3) == 0 {
+				// two answers in ONE batch (mostly for the same id): the second must see the first.
+				// The state between them is not observable, so it is taken from a run of the batch cut after
+				// the first answer (on a copy of the ledger); the errors come from the full batch.
+				s2 := proto.Clone(s).(*fpb.Swap)
+				if rng.Intn(4) == 0 {
+					s2.Id, _ = hex.DecodeString(strings.ToLower(swIDsCase[rng.Intn(len(swIDsCase))]))
+				}
+				if rng.Intn(2) == 0 {
+					s2.Owner = cw.users[rng.Intn(2)].Addr
+				}
+				lid2 := hex.EncodeToString(s2.Id)
+				term2 := fmt.Sprintf("SAnswer %d (%s)", cw.idN(lid2), cw.swapTerm(s2))
+				chn := cw.w.Peer.Channels[ch]
+				snap := stateSnapshot(chn)
+				cw.swAnswer(ch, s)
+				mid := cw.swObs(ch)
+				chn.State = map[string][]byte{}
+				for k, v := range snap {
+					chn.State[k] = []byte(v)
+				}
+				out := cw.w.ExecBatch(ch, &fpb.Batch{Swaps: []*fpb.Swap{s, s2}})
+				m1, m2 := "BATCH FAILED: "+out.Res.Message, "BATCH FAILED: "+out.Res.Message
+				if out.Resp != nil && len(out.Resp.GetSwapResponses()) == 2 {
+					m1, m2 = out.Resp.GetSwapResponses()[0].GetError().GetError(), out.Resp.GetSwapResponses()[1].GetError().GetError()
+				}
+				ops = append(ops, term)
+				steps = append(steps, fmt.Sprintf("(%s, None, None, %s)", swErr(m1), mid))
+				c.Count("one_answer_pair_" + strings.SplitN(strings.TrimPrefix(swErr(m1), "Some "), " ", 2)[0] + "_" + strings.SplitN(strings.TrimPrefix(swErr(m2), "Some "), " ", 2)[0])
+				term, msg = term2, m2
+				break
+			}
 			msg = cw.swAnswer(ch, s)
 		case r < 65:
-			msg = cw.swRobotDone(ch, id, key)
-			term = fmt.Sprintf("SRobotDone %d %d", cw.idN(id), swKeyN(key))
+			if r2 := cw.swapRec(ch, lid); r2 != nil && rng.Intn(3) > 0 {
+				if n := swHashN(r2.GetHash()); n >= 11 && n < 11+len(swKeys) {
+					key = swKeys[n-11]
+				}
+			}
+			msg = cw.swRobotDone(ch, lid, key)
+			term = fmt.Sprintf("SRobotDone %d %d", cw.idN(lid), swKeyN(key))
 		case r < 85:
 			msg, ev = cw.swUserDone(ch, id, key)
 			term = fmt.Sprintf("SUserDone %d %d", cw.idN(id), swKeyN(key))
@@ -478,7 +569,7 @@ func c08Two(c *Ctx) error {
 				d, id, kind = x.d, x.id, x.kind
 			}
 		}
-		key := rightKey(d, id)
+		key := padKey(rng, rightKey(d, id))
 		if rng.Intn(5) == 0 {
 			key = swKeys[rng.Intn(len(swKeys))]
 		}
